@@ -23,7 +23,7 @@ F11 = "F11 definition-mode export of a recursively closed value wraps ALL its co
 F12 = "F12 self-contained definition-mode export hoists a reference into a file-level let that points inside the _#def wrapper (`let _schema_9 = _schema`): the text does not compile on its own (witness corpus/C07/f12.cue; repository corpus entries of class dangling-reference-in-hoisted-let)"
 F13 = "F13 value-mode export (Final, `cue eval`) omits an optional field but prints the incomplete reference to it (`r: {a?: 3, b: a}` -> `r: b: a`): the text does not compile on its own (witness corpus/C07/f13.cue; repository corpus entries of class dangling-reference under profile final)"
 F15 = "F15 an error value below an optional field is exported as `_|_ // message`; formatted in a one-line struct the closing brace lands inside the line comment and the text does not parse (witness corpus/C07/f15.cue; the same tree formatted without the comment passes every check)"
-F8 = "F8 (known finding of C01/C05, met through the exporter) definition-mode export embeds struct literals that have pattern constraints as plain literals {{...}}; the evaluator treats an embedded plain literal differently (closedness of embeddings below it is lost): the printed text evaluates to a different value, the same text with the embedded literals spliced into their parent gives the original value"
+F8 = "F8 (known finding of C01/C05: in the evaluator an embedding is not a unification; met through the exporter) definition-mode export writes conjuncts as embeddings - struct literals with pattern constraints as embedded plain literals {{...}}, scalar conjuncts as embedded scalars {string, a?: int} - and the evaluator gives such a literal another value than the unification (closedness of embeddings below an embedded literal is lost; {string, a?: int} is string while {a?: int} & string is an error): the printed text evaluates to a different value, the same text with the embeddings rewritten to unifications gives the original value"
 F14 = "F14 repository corpus values whose printed text re-evaluates to an error of another class (structural cycle, conflicting values, field not allowed): listed in corpus/C07/testdata_expect.txt, not reduced"
 
 
@@ -109,9 +109,21 @@ def run(ctx):
     # ---- replay of one recorded case -----------------------------------------------------------
     if ctx.replay:
         rp = json.load(open(ctx.replay))
+        if rp.get("conjunction"):
+            db = os.path.join(ctx.work, "bounds")
+            os.makedirs(db, exist_ok=True)
+            vlib.run([harness, "--mode", "bounds", "--case", rp["conjunction"], "--out", db], timeout=600)
+            bc = read_lines(os.path.join(db, "cases.txt"))
+            bi = read_lines(os.path.join(db, "impl.txt"))
+            bm = vlib.run([exe], input="\n".join(bc) + "\n", timeout=600, stderr=None).stdout.split("\n")[:-1]
+            cov.update({"replay_output": {"case": bc, "impl": bi, "model": bm}, "evaluations": 1})
+            if bi != bm:
+                ctx.violation({"kind": "replayed-bounds-case-still-differs", "conjunction": rp["conjunction"], "impl_tokens": bi, "model_tokens": bm,
+                               "distinguishing_atom": bounds_distinguisher(rp["conjunction"], bi[0] if bi else "")})
+            return
         f = os.path.join(ctx.work, "replay.cue")
         open(f, "w").write(rp.get("program", ""))
-        mode = "filecheck" if rp.get("kind") == "file" else "replay"
+        mode = "filecheck" if rp.get("replay_kind") == "file" else "replay"
         args = [harness, "--mode", mode, "--file", f]
         if rp.get("profile"):
             args += ["--profile", rp["profile"]]
@@ -138,7 +150,7 @@ def run(ctx):
     lap("witnesses")
 
     # ---- 2. generated CoreCUE programs x option profiles --------------------------------------
-    n = 1600 if quick else 40000
+    n = 1600 if quick else 16000
     d = os.path.join(ctx.work, "run")
     os.makedirs(d, exist_ok=True)
     p = vlib.run([harness, "--mode", "run", "--seed", str(ctx.seed), "--n", str(n), "--out", d], timeout=3000)
@@ -239,7 +251,7 @@ def run(ctx):
             bump("nf-outside-printable-fragment")
         elif m_nf == m_orig:
             bump("nf-roundtrip-ok")
-            if len(nf_printed) < (600 if quick else 6000) and prof in ("default", "final"):
+            if len(nf_printed) < (600 if quick else 4000) and prof in ("default", "final"):
                 nf_printed.append((i, nf_sx))
         else:
             bump("nf-roundtrip-DIFF")
@@ -268,7 +280,7 @@ def run(ctx):
 
     lap("model_and_model_printer_read_by_cue")
     # ---- 4. bounds.go: exact agreement of the written tokens ------------------------------------
-    nb = 30000 if quick else 400000
+    nb = 30000 if quick else 300000
     db = os.path.join(ctx.work, "bounds")
     os.makedirs(db, exist_ok=True)
     vlib.run([harness, "--mode", "bounds", "--seed", str(ctx.seed), "--n", str(nb), "--out", db], timeout=3000)
